@@ -8,6 +8,8 @@ import SaModel.Lemmas.C04Safe
 import SaModel.Props.C01
 import SaModel.Props.C02
 import SaModel.Props.C08
+import SaModel.Props.C13
+import SaModel.Lemmas.C04Norm
 /-
 C04 — round trip through a type-traced schema is the identity.
 
@@ -49,22 +51,29 @@ theorem C04_mapping_injective (t : Ty) (v w : Val) (hv : wt t v = true) (hw : wt
 
 /-! ### the first half of the injectivity lemma, and the composition with it discharged -/
 
-/-- **`Spec.interp ∘ ser = lv` at the traced field**, for every option set, on the fragment `frag`: scalars, `()`, unit
-structs, Option, newtype structs, Vec, maps and structs (fields matched by name, `skip_serializing_if` fields left
-out).  `_partial`: tuples / tuple structs (positional names) and enums (Union, with the `noneAtUnion` exclusion) are
-not in `frag` yet; instances for them are checked on examples below. -/
+/-- **`Spec.interp ∘ ser = lv` at the traced field**, for every option set, on the grammar `fragE`: scalars, `()`, unit
+structs, Option, newtype structs, Vec, maps, structs (fields matched by name, `skip_serializing_if` fields left out),
+tuples / tuple structs / arrays (positional names "0", "1", … are distinct: `Nat.repr` is injective) and enums traced to
+a Union (unit / newtype / tuple / struct variants), under the documented exclusions in type-directed form `inScope`: no
+`None` (or skipped field) at a position traced to a Union, no value of a data-less enum stored as a string.
+`_partial`: data-less enums under `enums_without_data_as_strings` (Dictionary column: the logical value is the variant
+NAME there, `lv` describes the Union form) are excluded by `inScope`. -/
 theorem C04_interp_ser_partial (ext : Ext) (o : TraceOpts) (t : Ty) (v : Val) (dt : DataType) (nb : Bool) (md : Metadata)
-    (hf : frag t = true) (hw : wt t v = true) (hm : mappingDT o t = (dt, nb, md)) :
+    (hf : fragE t = true) (hw : wt t v = true) (hs : inScope o t v = true) (hm : mappingDT o t = (dt, nb, md)) :
     interpDT ext dt nb md (ser t v) = .ok (lv t v) :=
-  interp_ser ext o t v nb dt nb md hf hw hm (fun h => h)
+  interp_serE ext o t v nb dt nb md hf hw hs hm (fun h => h)
+
+/-- the exclusions are vacuous for enum-free types of the grammar (`frag`) -/
+theorem C04_frag_inScope (o : TraceOpts) (t : Ty) (v : Val) (hf : frag t = true) : fragE t = true ∧ inScope o t v = true :=
+  ⟨frag_fragE t hf, frag_inScope o t v hf⟩
 
 theorem Fields.ofList_toList : ∀ (l : Fields), Fields.ofList l.toList = l
   | .nil => rfl
   | .cons f r => by simp [Fields.toList, Fields.ofList, Fields.ofList_toList r]
 
-/-- at the root: a record type of the fragment against the schema `from_type` returns for it -/
+/-- at the root: a record type of the grammar (enums included) against the schema `from_type` returns for it -/
 theorem C04_interpRow_partial (ext : Ext) (o : TraceOpts) (n : String) (fs : TFields) (v : Val) (fields : List Field)
-    (hf : frag (.struct n fs) = true) (hw : wt (.struct n fs) v = true)
+    (hf : fragE (.struct n fs) = true) (hw : wt (.struct n fs) v = true) (hs : inScope o (.struct n fs) v = true)
     (hroot : mappingRoot o (.struct n fs) = some fields) :
     interpRow ext fields (ser (.struct n fs) v) = .ok (lv (.struct n fs) v) := by
   have hfields : fields = (mappingFields o fs).toList := by
@@ -72,7 +81,7 @@ theorem C04_interpRow_partial (ext : Ext) (o : TraceOpts) (n : String) (fs : TFi
   subst hfields
   unfold interpRow
   rw [Fields.ofList_toList]
-  exact interp_ser ext o (.struct n fs) v false _ false [] hf hw (by simp [mappingDT]) (fun h => h)
+  exact interp_serE ext o (.struct n fs) v false _ false [] hf hw hs (by simp [mappingDT]) (fun h => h)
 
 /-! ### the round trip through the real models -/
 
@@ -91,35 +100,10 @@ theorem C04_fromType_mapping (c : Trace.Code) (O : Trace.Options) (h0 : O.overwr
     exact fromTypeSpec_eq O h0 t hn fields hs
   | error e => rw [hs] at hag; exact absurd hag (by simp [Lemmas.C08.Agree])
 
-/-- **C04, through the real models** (`Trace.fromType`, `Build.toMarrow`, the reader model `Read.readAs` behind
-`readRecord` = `Deserializer::from_marrow` + item `i` + `T::deserialize`).
-
-For every record type `t = struct n fs` of the fragment `frag` (scalars, `()`, unit structs, Option, newtype structs,
-Vec, maps, structs with `rename` / `skip_serializing_if`; at least one field), all tracing options `O` without
-overwrites (any budget, every flag), every code variant `c` of the tracer, every batch `vs` of well-typed values:
-
-  if    `from_type` returns `fields`                        (`Trace.fromType c O (toTraceTy t) = ok fields`)
-  and   serializing the batch against them returns `arrs`   (`toMarrow ext fields (vs.map (ser t)) = ok arrs`)
-  then  reading record `i` back at the type's own target returns the value, normalised:
-        `readRecord (toTarget t) fields arrs i = ok (dvalOf t (norm t vs[i]))`   for every `i < vs.length`.
-
-`norm` is the documented collapse of `Some(None)` / `Some(())` to `None`, the identity elsewhere; `dvalOf` is the
-rendering of a typed value as the visitor calls of a typed read.
-
-Discharged here (were hypotheses H8 / H1 / H2 / Hinterp of the former composition over interfaces):
-  H8  `C04_fromType_mapping` (C08 + `fromTypeSpec_eq`);  H1  `Props.C01.C01_build_decode` + `Props.C03.C03_wf`, their
-  schema side conditions `Map2F`, `SchemaOKF`, `coveredF` by `mappingFields_side` (shape of traced schemas), `noRaw`,
-  `rawOK`, `SValOK` by `ser_ok` (shape of derived serializations);  H2  `Props.C02.read_typed_decode` with `new … = ok`
-  by `newFields_of_wf`, `utf8Ok` by `utf8Ok_lv`, `cast … = must …` by `cast_lv`;  Hinterp  `C04_interpRow_partial`.
-
-`_partial`, remaining hypotheses:
-  `hsafe`  C01's `Safe` on the fresh builder: holds for every traced schema without dictionary-encoded strings below a
-           nullable struct (C01's known exclusion `dict_placeholder_unstable`); not derived here from `O`;
-  `hphys`  `Read.physical`: dictionary value counts fit `i64` (true of any array in memory; Lean lists are unbounded);
-  `hext`   the external chrono parsers return values in range (`ExtOK`; irrelevant for traced schemas, asked by C03_wf);
-and the grammar: tuples / tuple structs / arrays and enums are not in `frag` (see `C04_interp_ser_partial`); the
-completeness direction (`toMarrow` never refuses a well-typed batch) is not proved. -/
-theorem C04_roundtrip_partial (c : Trace.Code) (O : Trace.Options) (ext : Ext) (n : String) (fs : TFields) (vs : List Val)
+/-- the core of the round trip: `from_marrow`'s checks pass with record count `vs.length`, the root reader is
+constructed, and the typed read of every index returns the normalised value (`C04_roundtrip_partial`,
+`C04_roundtrip_bulk_partial` are its two front ends) -/
+theorem C04_roundtrip_core (c : Trace.Code) (O : Trace.Options) (ext : Ext) (n : String) (fs : TFields) (vs : List Val)
     (fields : List Field) (arrs : List Arr)
     (h0 : O.overwrites = []) (hfrag : frag (.struct n fs) = true) (hne : fs ≠ .nil)
     (hwt : ∀ v ∈ vs, wt (.struct n fs) v = true)
@@ -128,9 +112,11 @@ theorem C04_roundtrip_partial (c : Trace.Code) (O : Trace.Options) (ext : Ext) (
     (hphys : ∀ a ∈ arrs, Read.physical a = true)
     (hft : Trace.fromType c O (toTraceTy (.struct n fs)) = .ok fields)
     (htm : toMarrow ext fields (vs.map (ser (.struct n fs))) = .ok arrs) :
+    Access.new true fields.length (arrs.map Read.vlen) = .ok vs.length ∧
+    Read.new Read.Fixes.all (rootArr fields arrs vs.length) = .ok () ∧
     ∀ (i : Nat) (hi : i < vs.length),
-      readRecord (toTarget (.struct n fs)) fields arrs i = .ok (dvalOf (.struct n fs) (norm (.struct n fs) vs[i])) := by
-  intro i hi
+      Read.readAs Read.Fixes.all (toTarget (.struct n fs)) (rootArr fields arrs vs.length) i =
+        .ok (dvalOf (.struct n fs) (norm (.struct n fs) vs[i])) := by
   let t : Ty := .struct n fs
   let o := viewOpts O
   have hn : noEnum t = true := frag_noEnum t hfrag
@@ -179,8 +165,13 @@ theorem C04_roundtrip_partial (c : Trace.Code) (O : Trace.Options) (ext : Ext) (
     rw [← (Spec.decodeAll_spec arrs[j]).1, this, hrl]
   have hacc : Access.new true fields.length (arrs.map Read.vlen) = .ok vs.length :=
     access_new vs.length _ _ (by simp [hlen]) (by simpa using hnonempty) hlens
+  have hnew : Read.new Read.Fixes.all (rootArr fields arrs vs.length) = .ok () := by
+    simpa [rootArr, Read.new] using hnewF
+  refine ⟨hacc, hnew, ?_⟩
+  intro i hi
   -- the decoded record is the logical value of the input
-  have hinterp := C04_interpRow_partial ext o n fs vs[i] fields hfrag (hwt _ (List.getElem_mem hi)) hroot
+  have hinterp := C04_interpRow_partial ext o n fs vs[i] fields (frag_fragE _ hfrag) (hwt _ (List.getElem_mem hi))
+    (frag_inScope o _ _ hfrag) hroot
   have hrow := hc4 i (by rw [hrl]; exact hi)
   rw [List.getElem_map, hinterp] at hrow
   have hdec : Spec.decodeAt (rootArr fields arrs vs.length) i = .ok (lv t vs[i]) := by
@@ -192,16 +183,114 @@ theorem C04_roundtrip_partial (c : Trace.Code) (O : Trace.Options) (ext : Ext) (
     simp [rootArr, Spec.wf, Spec.validityOk, hcols]
   have hcast := cast_lv o t vs[i] (rootArr fields arrs vs.length) (.struct (mappingFields o fs)) false [] false hfrag
     (hwt _ (List.getElem_mem hi)) (by simp [t, mappingDT]) hwfroot
-  have hread := Props.C02.read_typed_decode (toTarget t) (rootArr fields arrs vs.length) i (lv t vs[i]) _ hdec
+  exact Props.C02.read_typed_decode (toTarget t) (rootArr fields arrs vs.length) i (lv t vs[i]) _ hdec
     (by simpa [rootArr, Read.new] using hnewF)
     (by simpa [rootArr, Read.physical] using zip_physical fields arrs hphys)
     (utf8Ok_lv t vs[i]) hcast
+
+/-- **C04, through the real models** (`Trace.fromType`, `Build.toMarrow`, the reader model `Read.readAs` behind
+`readRecord` = `Deserializer::from_marrow` + item `i` + `T::deserialize`).
+
+For every record type `t = struct n fs` of the fragment `frag` (scalars, `()`, unit structs, Option, newtype structs,
+Vec, maps, structs with `rename` / `skip_serializing_if`; at least one field), all tracing options `O` without
+overwrites (any budget, every flag), every code variant `c` of the tracer, every batch `vs` of well-typed values:
+
+  if    `from_type` returns `fields`                        (`Trace.fromType c O (toTraceTy t) = ok fields`)
+  and   serializing the batch against them returns `arrs`   (`toMarrow ext fields (vs.map (ser t)) = ok arrs`)
+  then  reading record `i` back at the type's own target returns the value, normalised:
+        `readRecord (toTarget t) fields arrs i = ok (dvalOf t (norm t vs[i]))`   for every `i < vs.length`.
+
+`norm` is the documented collapse of `Some(None)` / `Some(())` to `None`, the identity elsewhere; `dvalOf` is the
+rendering of a typed value as the visitor calls of a typed read.
+
+Discharged here (were hypotheses H8 / H1 / H2 / Hinterp of the former composition over interfaces):
+  H8  `C04_fromType_mapping` (C08 + `fromTypeSpec_eq`);  H1  `Props.C01.C01_build_decode` + `Props.C03.C03_wf`, their
+  schema side conditions `Map2F`, `SchemaOKF`, `coveredF` by `mappingFields_side` (shape of traced schemas), `noRaw`,
+  `rawOK`, `SValOK` by `ser_ok` (shape of derived serializations);  H2  `Props.C02.read_typed_decode` with `new … = ok`
+  by `newFields_of_wf`, `utf8Ok` by `utf8Ok_lv`, `cast … = must …` by `cast_lv`;  Hinterp  `C04_interpRow_partial`.
+
+`_partial`, remaining hypotheses:
+  `hsafe`  C01's `Safe` on the fresh builder: holds for every traced schema without dictionary-encoded strings below a
+           nullable struct (C01's known exclusion `dict_placeholder_unstable`); not derived here from `O`;
+  `hphys`  `Read.physical`: dictionary value counts fit `i64` (true of any array in memory; Lean lists are unbounded);
+  `hext`   the external chrono parsers return values in range (`ExtOK`; irrelevant for traced schemas, asked by C03_wf);
+and the grammar: tuples / tuple structs / arrays and enums are not in `frag` (see `C04_interp_ser_partial`); the
+completeness direction (`toMarrow` never refuses a well-typed batch) is not proved. -/
+theorem C04_roundtrip_partial (c : Trace.Code) (O : Trace.Options) (ext : Ext) (n : String) (fs : TFields) (vs : List Val)
+    (fields : List Field) (arrs : List Arr)
+    (h0 : O.overwrites = []) (hfrag : frag (.struct n fs) = true) (hne : fs ≠ .nil)
+    (hwt : ∀ v ∈ vs, wt (.struct n fs) v = true)
+    (hext : Lemmas.C03.ExtOK ext)
+    (hsafe : ∀ root0, newRoot fields = .ok root0 → Safe root0)
+    (hphys : ∀ a ∈ arrs, Read.physical a = true)
+    (hft : Trace.fromType c O (toTraceTy (.struct n fs)) = .ok fields)
+    (htm : toMarrow ext fields (vs.map (ser (.struct n fs))) = .ok arrs) :
+    ∀ (i : Nat) (hi : i < vs.length),
+      readRecord (toTarget (.struct n fs)) fields arrs i = .ok (dvalOf (.struct n fs) (norm (.struct n fs) vs[i])) := by
+  intro i hi
+  obtain ⟨hacc, hnew, hread⟩ := C04_roundtrip_core c O ext n fs vs fields arrs h0 hfrag hne hwt hext hsafe hphys hft htm
   simp only [readRecord, hacc, bind, Except.bind]
-  have hnew : Read.new Read.Fixes.all (rootArr fields arrs vs.length) = .ok () := by
-    simpa [rootArr, Read.new] using hnewF
   rw [hnew]
   simp only [Access.getIdx, ge_iff_le, Nat.not_le.mpr hi, if_false]
-  exact hread
+  exact hread i hi
+
+theorem mapM_ok_of_forall {α β} (f : α → R β) (g : α → β) : ∀ (l : List α), (∀ x ∈ l, f x = .ok (g x)) → l.mapM f = .ok (l.map g)
+  | [], _ => rfl
+  | x :: xs, h => by
+    rw [List.mapM_cons, h x (by simp), mapM_ok_of_forall f g xs (fun y hy => h y (by simp [hy]))]
+    rfl
+
+/-- **Bulk form**: under the hypotheses of `C04_roundtrip_partial`, reading ALL records at once
+(`Vec<T>::deserialize(Deserializer::from_marrow(fields, views))`: the indices `Access.bulk len` of C13, each read into the
+type's target) returns the whole batch, normalised, in order. -/
+theorem C04_roundtrip_bulk_partial (c : Trace.Code) (O : Trace.Options) (ext : Ext) (n : String) (fs : TFields) (vs : List Val)
+    (fields : List Field) (arrs : List Arr)
+    (h0 : O.overwrites = []) (hfrag : frag (.struct n fs) = true) (hne : fs ≠ .nil)
+    (hwt : ∀ v ∈ vs, wt (.struct n fs) v = true)
+    (hext : Lemmas.C03.ExtOK ext)
+    (hsafe : ∀ root0, newRoot fields = .ok root0 → Safe root0)
+    (hphys : ∀ a ∈ arrs, Read.physical a = true)
+    (hft : Trace.fromType c O (toTraceTy (.struct n fs)) = .ok fields)
+    (htm : toMarrow ext fields (vs.map (ser (.struct n fs))) = .ok arrs) :
+    readAll (toTarget (.struct n fs)) fields arrs = .ok (vs.map fun v => dvalOf (.struct n fs) (norm (.struct n fs) v)) := by
+  obtain ⟨hacc, hnew, hread⟩ := C04_roundtrip_core c O ext n fs vs fields arrs h0 hfrag hne hwt hext hsafe hphys hft htm
+  simp only [readAll, hacc, bind, Except.bind]
+  rw [hnew]
+  simp only [Props.C13.bulk_eq_items]
+  rw [mapM_ok_of_forall _ (fun i => dvalOf (.struct n fs) (norm (.struct n fs) (vs.getD i .unit))) (List.range vs.length)
+    (fun i hi => by
+      have hi' : i < vs.length := List.mem_range.mp hi
+      rw [hread i hi']
+      simp [List.getD_eq_getElem?_getD, List.getElem?_eq_getElem hi'])]
+  congr 1
+  apply List.ext_getElem
+  · simp
+  · intro i h1 h2
+    have hi' : i < vs.length := by simpa using h1
+    simp [List.getD_eq_getElem?_getD, List.getElem?_eq_getElem hi']
+
+/-- **The round trip is literally the identity** where no `Option` sits directly over a nullable position
+(`plainOpt`: no `Option<Option<_>>`, `Option<()>`, …): `norm_eq_self` (whole grammar) removes the normalisation. -/
+theorem C04_roundtrip_identity_partial (c : Trace.Code) (O : Trace.Options) (ext : Ext) (n : String) (fs : TFields) (vs : List Val)
+    (fields : List Field) (arrs : List Arr)
+    (h0 : O.overwrites = []) (hfrag : frag (.struct n fs) = true) (hplain : plainOpt (.struct n fs) = true) (hne : fs ≠ .nil)
+    (hwt : ∀ v ∈ vs, wt (.struct n fs) v = true)
+    (hext : Lemmas.C03.ExtOK ext)
+    (hsafe : ∀ root0, newRoot fields = .ok root0 → Safe root0)
+    (hphys : ∀ a ∈ arrs, Read.physical a = true)
+    (hft : Trace.fromType c O (toTraceTy (.struct n fs)) = .ok fields)
+    (htm : toMarrow ext fields (vs.map (ser (.struct n fs))) = .ok arrs) :
+    readAll (toTarget (.struct n fs)) fields arrs = .ok (vs.map (dvalOf (.struct n fs))) := by
+  rw [C04_roundtrip_bulk_partial c O ext n fs vs fields arrs h0 hfrag hne hwt hext hsafe hphys hft htm]
+  congr 1
+  apply List.map_congr_left
+  intro v hv
+  rw [norm_eq_self _ v hplain (hwt v hv)]
+
+/-- `norm` is the identity on well-typed values of types without `Option` directly over a nullable position — whole
+grammar -/
+theorem C04_norm_eq_self (t : Ty) (v : Val) (hp : plainOpt t = true) (hw : wt t v = true) : norm t v = v :=
+  norm_eq_self t v hp hw
 
 /-- `C04_roundtrip_partial` with C01's `Safe` hypothesis DERIVED from the shape of the traced schema, for tracing options
 without `string_dictionary_encoding` (then a traced schema of the fragment contains no Dictionary, `safe_of_traced`). -/
@@ -244,15 +333,16 @@ def exVal2 : Val :=
     (.cons (.map .nil) (.cons (.some (.newtype (.bytes [1, 2]))) .nil)))))
 def exOpts : TraceOpts := { allowNullFields := true, mapAsStruct := false }
 
-/-- a record type inside the proved fragment (nested Option, Vec of Option of struct, map, skipped field, newtype) -/
+/-- a record type inside the enum-free fragment (nested Option, Vec of Option of struct, map with TUPLE values, skipped
+field, newtype) -/
 def exFragRoot : Ty :=
   .struct "Root" (.cons "a" false (.option (.option (.prim (.int .i32))))
     (.cons "v" false (.vec (.option exInner))
-    (.cons "m" false (.map (.prim .str) (.prim .char))
+    (.cons "m" false (.map (.prim .str) (.tuple (.cons (.prim .bool) (.cons (.prim .char) .nil))))
     (.cons "n" true (.option (.newtype "N" (.prim .bytes))) .nil))))
 def exFragVal : Val :=
   .struct (.cons (.some .none) (.cons (.vec (.cons (.some (.struct (.cons (.int 3) (.cons (.str "ab") .nil)))) (.cons .none .nil)))
-    (.cons (.map (.cons (.str "k") (.char 65) .nil)) (.cons .none .nil))))
+    (.cons (.map (.cons (.str "k") (.tuple (.cons (.bool false) (.cons (.char 65) .nil))) .nil)) (.cons .none .nil))))
 example : frag exFragRoot = true ∧ wt exFragRoot exFragVal = true := by decide +kernel
 example : frag exRoot = false := by decide +kernel
 
@@ -290,18 +380,58 @@ example : readRecord (toTarget exFragRoot) exFields exArrs 0 =
     .ok (.map (.cons (nameKey "a") .none
       (.cons (nameKey "v") (.seq (.cons (.some (.map (.cons (nameKey "x") (.int .i16 3)
           (.cons (nameKey "y") (.str .owned [97, 98]) .nil)))) (.cons .none .nil)))
-      (.cons (nameKey "m") (.map (.cons (.str .owned [107]) (.char 65) .nil))
+      (.cons (nameKey "m") (.map (.cons (.str .owned [107]) (.seq (.cons (.bool false) (.cons (.char 65) .nil))) .nil))
       (.cons (nameKey "n") .none .nil))))) := by decide +kernel
+
+def tfieldsOf : Ty → TFields
+  | .struct _ fs => fs
+  | _ => .nil
+
+/-- non-vacuity of the bulk form: the whole batch comes back, normalised, in order -/
+example : readAll (toTarget exFragRoot) exFields exArrs = .ok (exBatch.map fun v => dvalOf exFragRoot (norm exFragRoot v)) :=
+  C04_roundtrip_bulk_partial .fixed exO {} "Root" _ exBatch exFields exArrs rfl (by decide +kernel) (by simp)
+    (by decide +kernel) exExtOK
+    (safe_of_traced (viewOpts exO) rfl (tfieldsOf exFragRoot) (by decide +kernel) exFields (by decide +kernel)) (by decide +kernel) exTrace exBuild
+
+/-! non-vacuity of `C04_roundtrip_identity_partial` / `C04_norm_eq_self`: a record type without `Option` over a nullable
+position (an Option of a scalar, a tuple, a Vec of Option of struct): the batch comes back as it is -/
+def exPlainRoot : Ty :=
+  .struct "P" (.cons "a" false (.option (.prim (.int .i32)))
+    (.cons "t" false (.tuple (.cons (.prim .bool) (.cons (.prim .str) .nil)))
+    (.cons "v" false (.vec (.option exInner)) .nil)))
+def exPlainBatch : List Val :=
+  [.struct (.cons .none (.cons (.tuple (.cons (.bool true) (.cons (.str "x") .nil)))
+     (.cons (.vec (.cons (.some (.struct (.cons (.int 3) (.cons (.str "ab") .nil)))) (.cons .none .nil))) .nil))),
+   .struct (.cons (.some (.int 7)) (.cons (.tuple (.cons (.bool false) (.cons (.str "") .nil))) (.cons (.vec .nil) .nil)))]
+def exPlainFields : List Field := match Trace.fromType .fixed exO (toTraceTy exPlainRoot) with | .ok fs => fs | .error _ => []
+def exPlainArrs : List Arr := match toMarrow {} exPlainFields (exPlainBatch.map (ser exPlainRoot)) with | .ok a => a | .error _ => []
+theorem exPlainTrace : Trace.fromType .fixed exO (toTraceTy exPlainRoot) = .ok exPlainFields := by decide +kernel
+theorem exPlainBuild : toMarrow {} exPlainFields (exPlainBatch.map (ser exPlainRoot)) = .ok exPlainArrs := by decide +kernel
+example : plainOpt exPlainRoot = true ∧ plainOpt exFragRoot = false ∧ exPlainFields.length = 3 := by decide +kernel
+example : readAll (toTarget exPlainRoot) exPlainFields exPlainArrs = .ok (exPlainBatch.map (dvalOf exPlainRoot)) :=
+  C04_roundtrip_identity_partial .fixed exO {} "P" _ exPlainBatch exPlainFields exPlainArrs rfl (by decide +kernel)
+    (by decide +kernel) (by simp) (by decide +kernel) exExtOK
+    (safe_of_traced (viewOpts exO) rfl (tfieldsOf exPlainRoot) (by decide +kernel) exPlainFields (by decide +kernel)) (by decide +kernel)
+    exPlainTrace exPlainBuild
 
 example : wt exRoot exVal1 = true ∧ wt exRoot exVal2 = true := by decide +kernel
 /-- the documented collapse really happens (`Some(None)` ↦ `None`) and only there -/
 example : norm exRoot exVal1 ≠ exVal1 ∧ norm exRoot exVal2 = exVal2 := by decide +kernel
 example : unser exRoot (lv exRoot exVal1) = some (norm exRoot exVal1) := by decide +kernel
 example : unser exRoot (lv exRoot exVal2) = some exVal2 := by decide +kernel
-/-- the hypotheses `Hinterp` of the composition theorem hold on the examples for the *real* `Spec.interp` -/
-example : (mappingRoot exOpts exRoot).map (fun fs => interpRow {} fs (ser exRoot exVal1)) = some (.ok (lv exRoot exVal1)) := by
-  decide +kernel
-example : (mappingRoot exOpts exRoot).map (fun fs => interpRow {} fs (ser exRoot exVal2)) = some (.ok (lv exRoot exVal2)) := by
+/-- non-vacuity of `C04_interp_ser_partial` / `C04_interpRow_partial` with enums and tuples: `exRoot` (an enum with all
+four variant kinds, a map with tuple values) is in `fragE`, both values are in scope, the traced root schema exists, and
+the theorem gives the logical value of the serialized record under the *real* `Spec.interpRow` -/
+example : fragE exRoot = true ∧ inScope exOpts exRoot exVal1 = true ∧ inScope exOpts exRoot exVal2 = true ∧
+    (mappingRoot exOpts exRoot).isSome = true := by decide +kernel
+example (fields : List Field) (h : mappingRoot exOpts exRoot = some fields) :
+    interpRow {} fields (ser exRoot exVal1) = .ok (lv exRoot exVal1) ∧ interpRow {} fields (ser exRoot exVal2) = .ok (lv exRoot exVal2) :=
+  ⟨C04_interpRow_partial {} exOpts "Root" _ exVal1 fields (by decide +kernel) (by decide +kernel) (by decide +kernel) h,
+   C04_interpRow_partial {} exOpts "Root" _ exVal2 fields (by decide +kernel) (by decide +kernel) (by decide +kernel) h⟩
+/-- the exclusion is needed: `Option<enum>` = `None` is out of scope, and the documented mapping has no value for it
+(unions cannot hold nulls) -/
+example : inScope exOpts (.option exEnum) .none = false ∧
+    (interpDT {} (mappingDT exOpts (.option exEnum)).1 true (mappingDT exOpts (.option exEnum)).2.2 (ser (.option exEnum) .none)).isOk = false := by
   decide +kernel
 /-- different values have different logical content -/
 example : lv exRoot exVal1 ≠ lv exRoot exVal2 := by decide +kernel
